@@ -219,6 +219,8 @@ def get_attr(ex, base, attr):
         if isinstance(base, VSet) and hasattr(base, "nx_view") and attr in ("items", "values"):
             return VFunc("boundlib", attr, self_val=base)
         return VFunc("boundlib", attr, self_val=base)
+    if isinstance(base, VOpaque):
+        return VFunc("boundlib", attr, self_val=base)
     raise OutOfSubset(f"attribute {attr} of {type(base).__name__}")
 
 
@@ -356,6 +358,8 @@ def aug_assign(ex, cur, op, rhs):
 
 def binop(ex, l, op, r):
     L = ex.L
+    if isinstance(op, ast.Add) and isinstance(l, VStr) and l.s == "T_" and isinstance(r, VOpaque) and isinstance(r.what, tuple) and r.what[0] == "name":
+        return VOpaque(("transport-name", r.what[1]))
     if isinstance(l, VExpr) or isinstance(r, VExpr):
         return exprs.expr_binop(ex, l, op, r)
     if isinstance(op, (ast.Sub, ast.BitOr, ast.BitAnd, ast.BitXor)) and _setlike(l) and _setlike(r):
@@ -614,6 +618,10 @@ def construct(ex, cls: ClassInfo, args, kwargs):
         L.add_axioms({nm}, [L.forall_c(bs, L.And(L.is_cf(w), b_(w) == b_(src), L.forall(1, lambda i: ivs(w, i) == S.has(i))))] if False else [])
         ex.assume(L.And(L.is_cf(w), b_(w) == b_(src), L.forall(1, lambda i: ivs(w, i) == S.has(i))))
         return VNode(w)
+    if q == "y0.dsl.Variable" and len(args) == 1 and not kwargs and isinstance(args[0], VOpaque) and isinstance(args[0].what, tuple) \
+            and args[0].what[0] == "transport-name":
+        _transport_axioms(L)
+        return VNode(L.transport(args[0].what[1]))
     if q == "y0.dsl.Variable" and len(args) == 1 and not kwargs and isinstance(args[0], VFStr):
         ints = [p_ for p_ in args[0].parts if isinstance(p_, VInt)]
         if len(ints) == 1 and all(isinstance(p_, (str, VStr, VInt, VNone)) or p_ is None for p_ in args[0].parts):
@@ -1159,6 +1167,12 @@ def call_method(ex, obj, name, args, kwargs):
             k = args[0]
             if isinstance(k, VStr):
                 return obj.fields.get(k.s, args[1] if len(args) > 1 else NONE)
+    if isinstance(obj, VOpaque) and isinstance(obj.what, tuple) and obj.what[0] == "name" and name == "startswith" \
+            and len(args) == 1 and isinstance(args[0], VStr) and args[0].s == "T_":
+        ex.assumption_notes.add("v.name.startswith('T_') is read as the predicate is_transport_node(v); transport_variable(v) = Variable('T_' + v.name) "
+                                "is an injective function into transport nodes (string concatenation with a fixed prefix is injective)")
+        _transport_axioms(L)
+        return VBool(L.is_transport(obj.what[1]))
     if isinstance(obj, VFam):
         if name == "pop" and not args:
             # an arbitrary member of a set of frozensets (the set itself is a temporary here: removal is not tracked)
@@ -1168,6 +1182,14 @@ def call_method(ex, obj, name, args, kwargs):
             ex.assumption_notes.add("set.pop() on a set of frozensets returns an arbitrary member (no order assumed)")
             return VSet(lambda x: obj.mem(r0, x), kind="frozenset", owned=False)
     raise OutOfSubset(f"method {name} on {type(obj).__name__}")
+
+
+def _transport_axioms(L):
+    if not getattr(L, "_transport_axioms_added", False):
+        L._transport_axioms_added = True
+        T, ist = L.transport, L.is_transport
+        L.add_axioms(set(), [L.forall(1, lambda v: L.And(ist(T(v)), L.Not(L.is_intervention(T(v))), L.Not(L.is_cf(T(v))))),
+                             L.forall(2, lambda u, v: L.Implies(T(u) == T(v), u == v))])
 
 
 def _set_nattr(ex, g, tag, node_t, val):
